@@ -16,7 +16,8 @@ func ZZ_C19_CloneGate() {
 	np := zzConcretize(zzChoice("polls", polls)) + 1
 	var script []string
 	for i := 0; i < np-1; i++ {
-		script = append(script, zzPick("status", "", "inProgress", "completed", "NA", "error"))
+		// a replica reports "" / inProgress until it reaches a terminal status, which it keeps
+		script = append(script, zzPick("status", "", "inProgress"))
 	}
 	script = append(script, zzPick("final", "completed", "NA", "error"))
 	m.CloneScript = script
